@@ -200,7 +200,7 @@ theorem C18_upload_part_refines_partial (H : Hashes) (dl : Nat) {s : State} (hi 
 
 /-- upload_part_copy: the part becomes the source object, or its `bytes=first-last` slice; ANY other value of
     `x-amz-copy-source-range` — open-ended, suffix form, beyond the end of the source, first after last, a signed or
-    overflowing position, any other byte string — is `InvalidArgument` on both sides and changes nothing (814bd03: the
+    overflowing position, any other byte string — is `InvalidArgument` on both sides and changes nothing (18203b6: the
     backend's reader accepts exactly what the store accepts, `copyRange_eq`; before, open-ended ranges and ranges beyond the
     end were accepted: fs:part-copy-range-unchecked); a part number outside 1..10000 is `InvalidArgument` (205d9a8; before
     it was not checked: fs:part-number-not-validated), an upload that does not exist `NoSuchUpload`, on both sides.
@@ -255,7 +255,7 @@ theorem C18_list_parts_exact (parts : List (Int × Bytes)) (hnd : keysNodup part
     are replaced with it — by the upload's metadata, or none, and by no checksums (47e9b00; before:
     fs:stale-metadata-after-complete, fs:stale-checksum-after-complete); a complete that passes validation but whose bucket
     no longer exists is `NoSuchBucket` on both sides and changes nothing — the bucket is not recreated, the upload stays
-    (9bdb75f; before: fs:complete-into-missing-bucket). Partial — excluded: part lists other than 1..m
+    (b29f222; before: fs:complete-into-missing-bucket). Partial — excluded: part lists other than 1..m
     (fs:complete-requires-consecutive-parts, fs:complete-part-list-validation) -/
 theorem C18_complete_refines_partial (H : Hashes) (dl : Nat) {s : State} (hi : Inv s) {who : Who} {b k : Bytes}
     {u : UploadRef} {parts : Option (List (Option Int))} (hg : CompleteOk s who b k u parts) :
@@ -431,7 +431,7 @@ example : Good (run H0 4096 {} (demo.take 3)).1 (.deleteBucket bka) ∧
 /-- a ranged part copy `bytes=1-3` from an existing object into the owner's upload -/
 example : UploadPartCopyOk (run H0 4096 {} (demo.take 23)).1 bka kX (some 1) 2 bka kDE
     (some [98, 121, 116, 101, 115, 61, 49, 45, 51]) := by decide
-/-- … and every other value of `x-amz-copy-source-range` is inside too (814bd03; they were the excluded region
+/-- … and every other value of `x-amz-copy-source-range` is inside too (18203b6; they were the excluded region
     fs:part-copy-range-unchecked): beyond the end (`bytes=0-20` of 5 bytes), open-ended (`bytes=3-`), suffix form
     (`bytes=-3`), a signed position (`bytes=+1-3`), first after last (`bytes=3-1`), a second dash (`bytes=1-3-5`), no unit
     (`1-3`) — all refused with `InvalidArgument`, and the last byte alone (`bytes=4-4`) is copied -/
@@ -471,7 +471,7 @@ example :
       .completeMultipartUpload alice bka kA (some 1) (some [some 1]), .getObject bka kA none]
     GoodRun H0 4096 {} ops ∧ (run H0 4096 {} ops).2.getLast? = some (.get [2] 1 none (some (etagOf H0 [2])) [] {}) := by
   decide
-/-- a complete into a bucket that was deleted after the upload was created is inside `Good` (9bdb75f; it was the excluded
+/-- a complete into a bucket that was deleted after the upload was created is inside `Good` (b29f222; it was the excluded
     region fs:complete-into-missing-bucket): it is refused, the bucket stays away and the upload stays -/
 example :
     let ops : List Op := [.createBucket bka, .createMultipartUpload alice bka kA none, .uploadPart alice bka kA (some 1) 1 [2],
